@@ -526,6 +526,80 @@ def check_large(ctx, report, rng, label="large"):
                 sample={"label": label, "shape": [rows, cols], "interval": [a, b], "steps": list(pipe)})
 
 
+def check_fractional(ctx, report, rng, label="fractional"):
+    """per-pixel grids whose bounds are not integers (the grids are float rasters): costs outside a pixel's own
+    [min, max] are NaN and the disparity / refined disparity of a valid pixel lies inside it. Judged by the executable
+    specification alone (`C09.fractional`): the matching-cost model takes integer grids."""
+    from fractions import Fraction
+
+    from ..impl import mc_adapter as A
+
+    rows, cols = rng.randint(5, 8), rng.randint(9, 13)
+    sign = rng.choice(["neg", "pos", "mixed"])
+    fr = [Fraction(0), Fraction(1, 2), Fraction(1, 4), Fraction(3, 4)]
+
+    def bounds():
+        if sign == "neg":
+            hi = -Fraction(rng.randint(0, 2)) - rng.choice(fr)
+            lo = hi - rng.randint(0, 3) - rng.choice(fr)
+        elif sign == "pos":
+            lo = Fraction(rng.randint(0, 2)) + rng.choice(fr)
+            hi = lo + rng.randint(0, 3) + rng.choice(fr)
+        else:
+            lo = -Fraction(rng.randint(0, 2)) - rng.choice(fr)
+            hi = Fraction(rng.randint(0, 2)) + rng.choice(fr)
+        return lo, hi
+
+    per_pixel = rng.random() < 0.6
+    b0 = bounds()
+    grid = [[(bounds() if per_pixel else b0) for _ in range(cols)] for _ in range(rows)]
+    dmin = [[float(g[0]) for g in row] for row in grid]
+    dmax = [[float(g[1]) for g in row] for row in grid]
+    base = [[rng.randint(0, 40) for _ in range(cols + 12)] for _ in range(rows)]
+    sh = rng.randint(-2, 2)
+    case = {"rows": rows, "cols": cols, "bands": None, "band": None,
+            "left_im": [row[6:6 + cols] for row in base], "right_im": [row[6 + sh:6 + sh + cols] for row in base],
+            "left_msk": G.gen_mask(rng, rows, cols) if rng.random() < 0.3 else None, "right_msk": None,
+            "disp": {"kind": "grid", "min": dmin, "max": dmax}, "right_disp": None,
+            "method": rng.choice(["sad", "ssd", "census", "zncc"]), "window": 3, "subpix": rng.choice([1, 2, 4]),
+            "row0": 0, "col0": 0, "right": False}
+    pipe = {"matching_cost": A.mc_cfg(case), "disparity": {"disparity_method": "wta", "invalid_disparity": rng.choice(["NaN", -9999])}}
+    if rng.random() < 0.6:
+        pipe["refinement"] = {"refinement_method": "vfit"}
+    payload = {"case": case, "pipeline": pipe}
+    res = A.run_and_observe(case, pipe)
+    report.count("fractional_grid_pipelines")
+    if "error" in res:
+        report.count(f"pipeline_raises_{res['error']}_at_{res['at'].split('.')[0]}")
+        return
+    dq = [[core.enc(g[0]) for g in row] for row in grid]
+    xq = [[core.enc(g[1]) for g in row] for row in grid]
+    n_checked = 0
+    for name, snap in res["steps"]:
+        if snap["state"] == "cost_volume":
+            out = ctx.lean.call("C09.fractional", dminq=dq, dmaxq=xq, coords=[core.enc(Fraction(d)) for d in snap["disp"]],
+                                cv=G.enc_volume(snap["cv"]))
+            if out["n_outside"]:
+                report.hit("grid_outside_nan", out["n_outside"])
+            n_checked += out["n_outside"]
+            if out["n_bad_cost"]:
+                report.fail("grid_outside_nan", "fractional_grid_bounds", payload, {"step": name, "bad": out["bad_cost"]},
+                            f"{out['n_bad_cost']} costs outside the pixel's own interval are not NaN: {json.dumps(out['bad_cost'][:1])}")
+        elif snap["state"] == "disp_map":
+            kind = name.split(".")[0]
+            valid = [[(int(snap["mask"][r][c]) & INVALID_BITS) == 0 for c in range(cols)] for r in range(rows)]
+            out = ctx.lean.call("C09.fractional", dminq=dq, dmaxq=xq, disp=enc_map(snap["map"]), valid_px=valid)
+            clause = "after_disp_in_pixel_interval" if kind == "disparity" else "after_refine_in_pixel_interval"
+            if out["n_valid"]:
+                report.hit(clause, out["n_valid"])
+            n_checked += out["n_valid"]
+            if out["n_bad_disp"]:
+                report.fail(clause, "fractional_grid_bounds", payload, {"step": name, "bad": out["bad_disp"]},
+                            f"{out['n_bad_disp']} valid pixels lie outside their own interval after {name}: {json.dumps(out['bad_disp'][:1])}")
+    report.case(key=json.dumps(payload, sort_keys=True), nontrivial=n_checked > 0,
+                sample={"label": label, "sign": sign, "per_pixel": per_pixel, "subpix": case["subpix"], "steps": list(pipe)})
+
+
 def run_corpus_case(ctx, report, name, data, with_model=True):
     if "pipeline" in data:
         check_pipeline(ctx, report, data["case"], data["pipeline"], "corpus:" + name)
@@ -543,7 +617,8 @@ def run(ctx, report, status):
         "mc-cnn/sgm filling) run step by step on small pairs with scalar intervals or grids, the map entering every step of "
         "the tail being checked against the hypotheses of the composition theorems (C09.hyp); plus pipelines of the excluded "
         "shape (filter or filling BEFORE refinement); plus pairs of more than 100 rows or columns with a wide masked area and an interval "
-        "without 0, through cross-checking and filling, judged on the final map; non-trivial = some compared cell / some valid pixel; distinct by full input"
+        "without 0, through cross-checking and filling, judged on the final map; plus per-pixel grids with non-integer bounds "
+        "(halves and quarters, one-signed or straddling 0, subpix 1/2/4) judged by the specification alone; non-trivial = some compared cell / some valid pixel; distinct by full input"
     )
     for name, data in core.load_corpus(PROP):
         run_corpus_case(ctx, report, name, data)
@@ -555,6 +630,8 @@ def run(ctx, report, status):
         check_pipeline(ctx, report, case, pipe, "filter_or_filling_before_refinement")
     for _ in range(ctx.n(6, 40)):
         check_large(ctx, report, ctx.rng)
+    for _ in range(ctx.n(30, 600)):
+        check_fractional(ctx, report, ctx.rng)
 
 
 def search(ctx, report, status):
@@ -573,6 +650,11 @@ def search(ctx, report, status):
     rng = random.Random(ctx.seed + 77)
     for _ in range(12):
         check_large(ctx, sub, rng, "search")
+        f = unknown()
+        if f:
+            return f
+    for _ in range(100):
+        check_fractional(ctx, sub, rng, "search")
         f = unknown()
         if f:
             return f
